@@ -24,9 +24,21 @@ class PollBudgetExceeded(BaseException):
   pass
 
 
+CANDIDATE_STUDIES = [O.study_name(o, d) for o in (0, 1) for d in (0, 1, 2)]
+
+
 def state_of(sv):
   snap = O.snapshot(sv, include_ops=False)
-  return {'owners': snap['owners'], 'studies': snap['studies']}
+  # Also address every candidate study directly: a study row that exists but is
+  # not reachable through its owner's listing must not go unnoticed.
+  direct = {}
+  for name in CANDIDATE_STUDIES:
+    g = O.call(sv.GetStudy, O.vs.GetStudyRequest(name=name))
+    direct[name] = O.nstudy(g[1]) if g[0] == 'ok' else ('err', g[1])
+    if g[0] == 'ok' and name not in snap['studies']:
+      t = O.call(sv.ListTrials, O.vs.ListTrialsRequest(parent=name))
+      direct[name + '#trials'] = sorted(int(x.id) for x in t[1].trials) if t[0] == 'ok' else ('err', t[1])
+  return {'owners': snap['owners'], 'studies': snap['studies'], 'direct': direct}
 
 
 class C05(runner.Check):
@@ -53,7 +65,7 @@ class C05(runner.Check):
   min_budget_runs = 60
   min_budget_s = 150
   probes = ['probe.hot-journal-image', 'probe.crash-between-commits-of-one-rpc', 'probe.pool-used',
-            'probe.liveness-interrupted-worker', 'probe.liveness-fresh-worker', 'probe.second-crash',
+            'probe.liveness-interrupted-worker', 'probe.liveness-fresh-worker', 'probe.liveness-create-study-retry', 'probe.second-crash',
             'probe.over-delivery']
   thorough_only_probes = ['probe.second-crash']
 
@@ -66,7 +78,7 @@ class C05(runner.Check):
     faults = []
     if rng.random() < 0.4:
       faults.append({'site': 'suggest', 'at': rng.randrange(1, 5), 'kind': rng.choice(['deliver:+1', 'deliver:+2'])})
-    profile = {'n_studies': 2, 'n_owners': 1, 'workers': 3, 'p_direct': 0.0, 'md_missing': True}
+    profile = {'n_studies': 2, 'n_owners': rng.choice([1, 1, 2]), 'workers': 3, 'p_direct': 0.0, 'md_missing': True}
     weights = {'SuggestTrials': 8, 'CreateTrial': 4, 'CompleteTrial': 5, 'AddTrialMeasurement': 2,
                'StopTrial': 2, 'DeleteTrial': 2, 'UpdateMetadata': 4, 'SetStudyState': 1, 'CreateStudy': 1,
                'DeleteStudy': 1, 'CheckES': 2, 'M:pool': 2}
@@ -136,10 +148,11 @@ class C05(runner.Check):
       for j, op in enumerate(plan['ops']):
         c = O.resolve(op, O.View(world.sv))
         concrete.append(c)
-        if j >= armed_from:
+        armed = j >= armed_from or j == 0  # the first CreateStudy (new owner) is always armed
+        if armed:
           rec.arm(j)
         out = O.outcome_norm(c['kind'], O.execute(world.sv, c, cfg))
-        if j >= armed_from:
+        if armed:
           rec.mark('op-end')
         rec.disarm()
         states.append(state_of(world.sv))
@@ -244,6 +257,15 @@ class C05(runner.Check):
       if viol:
         return viol
       # (e) liveness once faults stop
+      if kind == 'CreateStudy' and not c.get('empty'):
+        r = O.outcome_norm('CreateStudy', O.execute(w2.sv, c, cfg))
+        want = O.study_name(c['owner'], c['display'])
+        listed = O.outcome_norm('ListStudies', O.execute(w2.sv, {'kind': 'ListStudies', 'owner': c['owner']}, cfg))
+        if r[0] != 'ok':
+          viol.append(('create-study-cannot-be-retried-after-restart', f'retry of the interrupted CreateStudy fails with {r[1]}'))
+        elif listed[0] != 'ok' or want not in listed[2]:
+          viol.append(('create-study-cannot-be-retried-after-restart', f'{want} not listed for its owner after the retry: {listed[:3]}'))
+        res.bump('probe.liveness-create-study-retry')
       main = O.study_name(0, 0)
       st = rec_state['studies'].get(main)
       if st is not None and st['study']['state'] in O.MUTABLE_STUDY:
@@ -329,6 +351,12 @@ class C05(runner.Check):
           out.append(f'{name}: mixes old and new versions of different records')
     if rec_state['owners'] != a['owners'] and rec_state['owners'] != b['owners']:
       out.append('owner listing is neither old nor new')
+    da, db, dr = a.get('direct', {}), b.get('direct', {}), rec_state.get('direct', {})
+    for name in sorted(dr):
+      if dr[name] != da.get(name) and dr[name] != db.get(name):
+        out.append(f'{name} addressed directly is neither old nor new')
+      elif not out and (dr[name] == db.get(name)) != (rec_state['owners'] == b['owners']) and da.get(name) != db.get(name):
+        out.append(f'{name} is {"present" if isinstance(dr[name], dict) else "absent"} when addressed directly but its owner listing says otherwise')
     return '; '.join(out[:4]) or 'recovered state equals neither S(j-1) nor S(j)'
 
 
